@@ -14,6 +14,7 @@ import (
 	"syscall"
 	"time"
 
+	"github.com/uhppoted/uhppote-core/encoding/bcd"
 	"github.com/uhppoted/uhppote-core/types"
 
 	"verif/harness/adapter"
@@ -498,6 +499,39 @@ func c10(c *Ctx) {
 				c.Res.Count("cycles:foreign-bind-of-the-listen-address-refused", 1)
 			}
 		}
+		// every third cycle the application's other goroutines are busy with the library too while the events come in: they decode
+		// controller dates and times of their own (as polling GetTime / GetStatus does)
+		busyStop := make(chan struct{})
+		var busy sync.WaitGroup
+		if cycle%3 == 0 {
+			c.Res.Count("cycles:other-goroutines-decoding-dates-and-times-meanwhile", 1)
+			for g := 0; g < 3; g++ {
+				busy.Add(1)
+				go func(g int) {
+					defer busy.Done()
+					defer func() { recover() }()
+					t0 := time.Now()
+					for k := 0; ; k++ {
+						select {
+						case <-busyStop:
+							return
+						default:
+						}
+						if k%512 == 511 && time.Since(t0) > 5*time.Second {
+							return // (a cycle that was abandoned does not leave them spinning)
+						}
+						b := []byte{0x20, byte(0x10 + (k+g)%10), 0x12, 0x31, byte(0x10 + g), byte(k % 6 << 4), byte(k % 10)}
+						bcd.Decode(b)
+						var dt types.DateTime
+						dt.UnmarshalUT0311L0x(b)
+						var d types.Date
+						d.UnmarshalUT0311L0x(b[:4])
+						bcd.Encode(fmt.Sprintf("%08d", 20240101+k%28))
+					}
+				}(g)
+			}
+		}
+		stopBusy := func() { close(busyStop); busy.Wait() }
 		nSenders := 1 + r.Pick(4)
 		perSender := c.N(60, 250) + r.Pick(100)
 		stopMid := cycle%4 == 3
@@ -577,6 +611,7 @@ func c10(c *Ctx) {
 				time.Sleep(time.Millisecond)
 			}
 		}
+		stopBusy()
 		stopWith := []os.Signal{os.Interrupt, syscall.SIGTERM, syscall.SIGUSR1, syscall.SIGHUP, syscall.SIGUSR2, c10Signal("stop")}[cycle%6] // whatever arrives on the channel stops the listener
 		fullyAcked := lst.acks.Load() >= sentTotal.Load()
 		if stalled.Load() {
